@@ -2,6 +2,7 @@
 """Seeded-change bookkeeping.
 
   seed.py harvest <seed-id> <worktree> <property> "<needs>"   confirm a sub-agent's change and store it under seeded/<id>/
+  seed.py neutral <seed-id> <worktree> <property>             store a behaviour-preserving refactor (every check must stay silent)
   seed.py run [<seed-id> ...]                                  apply each stored patch to /repo, run the checks, undo
 
 harvest confirms, in a scratch worktree of /repo's HEAD (removed afterwards): the patch applies, the 308 tests pass with
@@ -76,6 +77,50 @@ def harvest(sid, wt, prop, needs):
     return ok
 
 
+def neutral(sid, wt, prop):
+    """A behaviour-preserving refactor written by a sub-agent: the 308 tests pass with it, its differential script exits 0,
+    and every claimed check must exit 0 on the patched tree."""
+    d = os.path.join(SEEDED, sid)
+    os.makedirs(d, exist_ok=True)
+    rc, diff = sh("git diff -- src", cwd=wt)
+    assert diff.strip(), "empty diff"
+    with open(os.path.join(d, "patch.diff"), "w") as f:
+        f.write(diff)
+    demo_src = os.path.join(wt, f"demo_{prop}.py")
+    if os.path.exists(demo_src):
+        shutil.copy(demo_src, os.path.join(d, "demo.py"))
+    scratch = f"/tmp/seedchk_{sid}"
+    sh(f"git -C /repo worktree remove --force {scratch}")
+    rc, out = sh(f"git -C /repo worktree add -q --detach {scratch} HEAD")
+    assert rc == 0, out
+    ran = []
+    try:
+        env = {"PYTHONPATH": f"{scratch}/src"}
+        rc, out = sh(f"git apply {d}/patch.diff", cwd=scratch)
+        assert rc == 0, "patch does not apply to HEAD: " + out
+        rct, ot = sh(f"{PY} -m pytest -q -p no:cacheprovider", cwd=scratch, env=env)
+        tail = ot.strip().splitlines()[-1] if ot.strip() else ""
+        ran.append(f"pytest with the change: exit {rct}: {tail}")
+        rc1 = 0
+        if os.path.exists(os.path.join(d, "demo.py")):
+            txt = open(os.path.join(d, "demo.py")).read().replace(wt, scratch)
+            open(os.path.join(scratch, f"demo_{prop}.py"), "w").write(txt)
+            rc1, o1 = sh(f"{PY} demo_{prop}.py", cwd=scratch, env=env, timeout=1200)
+            ran.append(f"differential script (original vs edited): exit {rc1}: {o1.strip().splitlines()[-1] if o1.strip() else ''}")
+        ok = rct == 0 and rc1 == 0
+    finally:
+        sh(f"git -C /repo worktree remove --force {scratch}")
+    rc, head = sh("git -C /repo rev-parse --short HEAD")
+    meta = {"id": sid, "kind": "neutral", "property": prop, "needs_to_manifest": "nothing: behaviour-preserving refactor", "base_commit": head.strip(),
+            "confirmed": ok, "ran": ran}
+    with open(os.path.join(d, "meta.json"), "w") as f:
+        json.dump(meta, f, indent=1)
+    print(json.dumps({k: meta[k] for k in ("id", "property", "confirmed", "ran")}, indent=1))
+    if ok:
+        run([sid])
+    return ok
+
+
 def run(ids):
     ids = ids or sorted(x for x in os.listdir(SEEDED) if os.path.exists(os.path.join(SEEDED, x, "patch.diff")))
     rc, st = sh("git -C /repo status --porcelain -- src")
@@ -108,6 +153,14 @@ def run(ids):
         finally:
             sh("git -C /repo reset -q; git -C /repo checkout -- .")
         own = meta["property"]
+        if meta.get("kind") == "neutral":
+            meta["alarms"] = {p: v for p, v in det.items()}
+            meta["silent"] = not det
+            with open(os.path.join(d, "meta.json"), "w") as f:
+                json.dump(meta, f, indent=1)
+            summary[sid] = "neutral: " + ("silent (all checks exit 0)" if not det else "FALSE-ALARM " + ",".join(f"{p}(exit {v['exit']})" for p, v in det.items()))
+            print(sid, summary[sid])
+            continue
         meta["detected_by"] = {p: v for p, v in det.items()}
         meta["detected_by_own_property_check"] = own in det and det[own]["exit"] == 1
         meta["detected_by_any_check"] = any(v["exit"] == 1 for v in det.values())
@@ -128,6 +181,9 @@ def run(ids):
 if __name__ == "__main__":
     if sys.argv[1] == "harvest":
         ok = harvest(*sys.argv[2:6])
+        sys.exit(0 if ok else 1)
+    elif sys.argv[1] == "neutral":
+        ok = neutral(*sys.argv[2:5])
         sys.exit(0 if ok else 1)
     elif sys.argv[1] == "run":
         run(sys.argv[2:])
